@@ -595,8 +595,16 @@ func bundleKeys(ctx context.Context, b *Bundle, size uint32, db kvStore, logger 
 		// NOTE: this section issues a GET on remote store for this key and has been seen as the
 		// limiting factor on the throughput of the index building job.
 		// By skipping it on already existing root keys, we shall call this about 2.5x less often.
-		leaves, err := cafs.LeavesForHash(b.BlobStore(), root, size, "")
+		leaves, err := leavesWithRetry(ctx, b.BlobStore(), root, size)
 		if err != nil {
+			if !errors.Is(err, status.ErrNotExists) && !isCorruptedRoot(err) {
+				// the root key could not be read from the store: the leaves it refers to are unknown, hence
+				// would be missing from the index. Block the process.
+				logger.Error("the root key could not be read", zap.String("key", entry.Hash), zap.Error(err))
+
+				return nil, err
+			}
+
 			// The root key is somehow corrupted. This might happen with objects created with previous versions of datamon:
 			// ignore the leaves and just return the root key.
 			logger.Warn("the root key is corrupted: indexing the root, skipping unavailable leaves",
@@ -612,6 +620,49 @@ func bundleKeys(ctx context.Context, b *Bundle, size uint32, db kvStore, logger 
 	}
 
 	return keys, nil
+}
+
+// errCorruptedRoot marks a root key that was read from the store, but does not resolve as a list of leaves.
+type errCorruptedRoot struct{ error }
+
+func isCorruptedRoot(err error) bool {
+	_, ok := err.(errCorruptedRoot)
+
+	return ok
+}
+
+// leavesWithRetry resolves the leaves of a root key, retrying when the store fails to deliver the root blob.
+func leavesWithRetry(ctx context.Context, blobs storage.Store, root cafs.Key, size uint32) ([]cafs.Key, error) {
+	var data []byte
+
+	if err := backoff.Retry(func() error {
+		rdr, e := blobs.Get(ctx, root.String())
+		if e != nil {
+			if errors.Is(e, status.ErrNotExists) {
+				return backoff.Permanent(e)
+			}
+
+			return e
+		}
+		defer func() {
+			_ = rdr.Close()
+		}()
+
+		data, e = io.ReadAll(rdr)
+
+		return e
+	},
+		backoff.WithContext(defaultBackoff(), ctx),
+	); err != nil {
+		return nil, err
+	}
+
+	leaves, err := cafs.LeafKeys(root, data, size)
+	if err != nil {
+		return nil, errCorruptedRoot{err}
+	}
+
+	return leaves, nil
 }
 
 // PurgeDeleteUnused deletes blob entries that are not referenced by the reserve-lookup index.
